@@ -52,7 +52,26 @@ class Evaluator:
         if isinstance(e, ast.Name):
             if e.id in env:
                 return env[e.id]
+            mc = self._module_const(e.id, depth)
+            if mc is not None:
+                return mc
             raise Unknown("name %s" % e.id)
+        if isinstance(e, ast.Subscript):
+            v, i = self.const(e.value, env, depth), self.const(e.slice, env, depth)
+            if isinstance(v, (tuple, str)) and isinstance(i, int) and -len(v) <= i < len(v):
+                return v[i]
+            raise Unknown("subscript")
+        if isinstance(e, (ast.GeneratorExp, ast.ListComp)) and len(e.generators) == 1 and not e.generators[0].ifs:
+            g = e.generators[0]
+            it = self.const(g.iter, env, depth)
+            if not isinstance(it, tuple) or len(it) > 64:
+                raise Unknown("comprehension over a non-constant sequence")
+            out = []
+            for item in it:
+                e2 = dict(env)
+                self._bind(g.target, item, e2)
+                out.append(self.const(e.elt, e2, depth))
+            return tuple(out)
         if isinstance(e, (ast.Tuple, ast.List)):
             return tuple(self.const(x, env, depth) for x in e.elts)
         if isinstance(e, ast.UnaryOp) and isinstance(e.op, (ast.USub, ast.UAdd)):
@@ -77,6 +96,11 @@ class Evaluator:
             if isinstance(e.op, ast.FloorDiv) and b:
                 return a // b
             raise Unknown("operator")
+        if isinstance(e, ast.Attribute) and isinstance(e.value, ast.Name) and e.value.id not in ("numpy", "np"):
+            # a class-level constant table: IndxIO._WORDS / cls._WORDS / self._WORDS
+            cc = self._class_const(e.value.id, e.attr, depth)
+            if cc is not None:
+                return cc
         if isinstance(e, ast.Attribute):
             # numpy.uint8
             if isinstance(e.value, ast.Name) and e.value.id in ("numpy", "np") and e.attr in RANGES:
@@ -104,12 +128,64 @@ class Evaluator:
                 raise Unknown("numpy.dtype argument")
             if isinstance(f, ast.Name) and f.id == "int" and len(e.args) == 1:
                 return self.const(e.args[0], env, depth)
+            if isinstance(f, ast.Name) and f.id in ("tuple", "list") and len(e.args) == 1 and not e.keywords:
+                v = self.const(e.args[0], env, depth)
+                if isinstance(v, tuple):
+                    return v
+                raise Unknown("tuple() of a non-constant")
             target = self._resolve(f)
             if target is not None and depth < self.max_depth and not e.keywords:
                 args = [self.const(a, env, depth) for a in e.args]
                 return self.call_const(target, args, depth + 1)
             raise Unknown("call")
         raise Unknown("expression %s" % type(e).__name__)
+
+    def _bind(self, target, value, env):
+        if isinstance(target, ast.Name):
+            env[target.id] = value
+            return
+        if isinstance(target, (ast.Tuple, ast.List)) and isinstance(value, tuple) and len(value) == len(target.elts):
+            for t, v in zip(target.elts, value):
+                self._bind(t, v, env)
+            return
+        raise Unknown("loop target does not match the table's rows")
+
+    def _module_const(self, name, depth):
+        """value of a module-level constant (a table of rungs), or None"""
+        if depth > self.max_depth + 2:
+            return None
+        cache = self.__dict__.setdefault("_mc", {})
+        for mod in (self.module, "iindexes", "indxio"):
+            m = getattr(self.prog, "modules", {}).get(mod)
+            if m is None:
+                continue
+            for st in m.tree.body:
+                if isinstance(st, ast.Assign) and len(st.targets) == 1 and isinstance(st.targets[0], ast.Name) and st.targets[0].id == name:
+                    key = (mod, name)
+                    if key not in cache:
+                        cache[key] = None
+                        try:
+                            cache[key] = self.const(st.value, {}, depth + 1)
+                        except Unknown:
+                            cache[key] = None
+                    return cache[key]
+        return None
+
+    def _class_const(self, owner, attr, depth):
+        cls = getattr(self, "_cls", None) if owner in ("cls", "self") else owner
+        if not cls:
+            return None
+        for mod in (self.module, "indxio", "iindexes"):
+            try:
+                ci = self.prog.cls(mod, cls)
+            except Exception:
+                ci = None
+            if ci is not None and attr in getattr(ci, "attrs", {}):
+                try:
+                    return self.const(ci.attrs[attr], {}, depth + 1)
+                except Unknown:
+                    return None
+        return None
 
     def _dtype_of_str(self, s):
         s = s.lstrip("<=|>")
@@ -236,14 +312,14 @@ class Evaluator:
                     ff = run(list(s.orelse), f, env) if f else []
                     ivs = _norm(ft + ff)
                     continue
-                if isinstance(s, ast.For) and isinstance(s.target, ast.Name) and not s.orelse:
+                if isinstance(s, ast.For) and not s.orelse:
                     seq = self.const(s.iter, env, depth)
                     if not isinstance(seq, tuple) or len(seq) > 64:
                         raise Unknown("loop over a non-constant sequence")
                     live = ivs
                     for item in seq:
                         e2 = dict(env)
-                        e2[s.target.id] = item
+                        self._bind(s.target, item, e2)
                         live = run(list(s.body), live, e2)
                     ivs = live
                     continue
